@@ -21,6 +21,10 @@ def obligations(tier):
         {'name': 'C11.a/validation_checksum_8', 'engine': 'py', 'module': K, 'func': 'eltorito_checksum', 'params': {'n': 8}, 'cond_timeout': 600,
          'bounds': 'all messages of 8 bytes', 'functions': ['EltoritoValidationEntry._checksum'], 'stubs': ['int() shadowed by identity in eltorito namespace']},
     ]
+    for dl in ((68, 2048, 2052, 2112, 2116, 4096, 4100, 6184) if tier == 'quick' else (64, 68, 72, 2044, 2048, 2052, 2108, 2112, 2116, 4092, 4096, 4100, 4160, 6144, 6184, 8192)):
+        obs.append({'name': 'C11.a/boot_info_csum_len%d' % dl, 'engine': 'py', 'module': K, 'func': 'boot_info_csum_len', 'params': {'data_len': dl}, 'cond_timeout': 900,
+                    'bounds': 'boot file of exactly %d bytes; the 32-bit words at block starts/ends, around offset 64 and at the tail symbolic, the rest zero' % dl,
+                    'functions': ['PyCdlib._calculate_eltorito_boot_info_table_csum'], 'stubs': ['struct.unpack_from("<L") as word select', 'block-reading file model']})
     if tier != 'quick':
         obs.append({'name': 'C11.a/validation_checksum_16', 'engine': 'py', 'module': K, 'func': 'eltorito_checksum', 'params': {'n': 16}, 'cond_timeout': 3000,
                     'bounds': 'all messages of 16 bytes', 'functions': ['EltoritoValidationEntry._checksum']})
